@@ -8,7 +8,7 @@ Open Scope Z_scope.
 Lemma nth_repeat_none n k : nth k (repeat SapNone n) SapNone = SapNone.
 Proof. revert k; induction n; intros [|k]; cbn; auto. Qed.
 
-Lemma sap_get_init a : sap_get init_ctl a = if a =? 0 then Sap [] [] else if a =? 1 then SapSD else SapNone.
+Lemma sap_get_init b a : sap_get (init_ctl b) a = if a =? 0 then Sap [] [] else if a =? 1 then SapSD else SapNone.
 Proof.
   unfold sap_get. destruct (in_range a) eqn:E.
   - apply in_range_iff in E. cbn [c_sap init_ctl init_sap].
@@ -19,11 +19,11 @@ Proof.
     destruct (a =? 1) eqn:E1; [unfold in_range in E; lia|]. reflexivity.
 Qed.
 
-Lemma wf_init : wf init_ctl.
+Lemma wf_init b : wf (init_ctl b).
 Proof.
-  assert (NL : forall a i, ~ listed init_ctl a i).
+  assert (NL : forall a i, ~ listed (init_ctl b) a i).
   { intros a i. unfold listed. rewrite sap_get_init. destruct (a =? 0); [|destruct (a =? 1)]; cbn; auto. }
-  assert (NS : forall i, get_sock init_ctl i = None) by (intros [|i]; reflexivity).
+  assert (NS : forall i, get_sock (init_ctl b) i = None) by (intros [|i]; reflexivity).
   constructor; try (intros; exfalso; eapply NL; eassumption); try (intros ? ? ? H; rewrite NS in H; discriminate);
     try (intros ? ? H; rewrite NS in H; discriminate).
   - reflexivity.
